@@ -143,7 +143,7 @@ Lemma J2_int t : (t_type t =? T_INT) && relex_word T_INT (t_lit t) && go_int_ok 
 Proof.
   intro H. destruct (J_int t H) as [Os J]. exists (fb (EInt t)). split; [split; [exact Os|]|exact J].
   apply andb_true_iff in H as [H _]. apply andb_true_iff in H as [_ H2].
-  destruct (lex1_number _ _ [] H2 (or_introl eq_refl) ltac:(discriminate) kont_nil) as (HD & _).
+  destruct (lex1_number _ _ [] H2 (or_introl eq_refl) ltac:(discriminate) eq_refl ltac:(intro Q; discriminate Q)) as (HD & _).
   apply digit_ws. exact HD.
 Qed.
 
@@ -151,7 +151,7 @@ Lemma J2_float t : (t_type t =? T_FLOAT) && relex_word T_FLOAT (t_lit t) && go_f
 Proof.
   intro H. destruct (J_float t H) as [Os J]. exists (fb (EFloat t)). split; [split; [exact Os|]|exact J].
   apply andb_true_iff in H as [H H3]. apply andb_true_iff in H as [_ H2].
-  destruct (lex1_number _ _ [] H2 (or_intror eq_refl) (fun _ => H3) kont_nil) as (HD & _).
+  destruct (lex1_number _ _ [] H2 (or_intror eq_refl) (fun _ => H3) eq_refl ltac:(intro Q; discriminate Q)) as (HD & _).
   apply digit_ws. exact HD.
 Qed.
 
@@ -214,6 +214,7 @@ Proof.
   - intros t' eL eR tsL tsR R Ty' Li' _ ML MR. cbn [m_expr]. rewrite Ty', Hb, Li', str_eqb_refl. cbn [negb].
     rewrite ML, eat_tok_refl. apply MR.
   - reflexivity.
+  - reflexivity.
 Qed.
 
 Lemma J2_assign t l v : t_type t = T_ASSIGN -> t_lit t = [61%N] ->
@@ -241,6 +242,7 @@ Proof.
   - intros t' eL eR tsL tsR R Ty' Li' _ ML MR. cbn [m_expr]. rewrite Ty'.
     change (T_ASSIGN =? T_ASSIGN) with true. cbn [negb].
     rewrite ML, eat_tok_refl. apply MR.
+  - reflexivity.
   - reflexivity.
 Qed.
 
@@ -271,6 +273,7 @@ Proof.
   - exact Li.
   - intros t' eL eR tsL tsR R Ty' Li' _ ML MR. cbn [m_expr]. rewrite Ty', Want, str_eqb_refl. cbn [negb].
     rewrite ML, eat_tok_refl. apply MR.
+  - reflexivity.
   - reflexivity.
 Qed.
 
@@ -320,7 +323,7 @@ Proof.
     - cbn [app] in Hl. rewrite <- !app_assoc in Hl.
       destruct (punct_step _ _ _ l TT PB Hl) as (t' & l1 & L1 & Ty1 & Li1 & _ & R1). eauto 8. }
   destruct St as (t' & l1 & L1 & Ty1 & Li1 & R1).
-  destruct (Lx2 K HK l1 R1) as (eR & tsR & l2 & L2 & R2 & MR & SR & _).
+  destruct (Lx2 K (kont_sub _ _ _ HK eq_refl) l1 R1) as (eR & tsR & l2 & L2 & R2 & MR & SR & _).
   exists (EUnary t' (t_lit t) eR), ([t'] ++ tsR), l2.
   split; [eapply lexes_app; eassumption|]. split; [exact R2|]. split; [|split].
   - intro R. cbn [m_expr app]. rewrite Ty1, Tys, Li1, str_eqb_refl. cbn [negb orb].
@@ -373,7 +376,7 @@ Proof.
     + exists (sp ++ body). split.
       { rewrite sep_map_one. cbv beta. rewrite app_nil_r. exact W. }
       intros K HK l Hl. rewrite <- app_assoc in Hl.
-      destruct (Lx K HK l Hl) as (e' & ts & l' & L & R & M & S & _).
+      destruct (Lx K (kont_sub _ _ _ HK eq_refl) l Hl) as (e' & ts & l' & L & R & M & S & _).
       exists [e'], ts, l'. repeat split; try assumption. cbn [map]. rewrite S. reflexivity.
     + destruct (IH ((b ++ sp ++ body) ++ [44%N]) lv mp) as (body2 & W2 & Lx2).
       exists ((sp ++ body) ++ 44%N :: body2). split.
@@ -457,27 +460,38 @@ Proof.
 Qed.
 
 Lemma J2_member_dot t o i : t_type t = T_DOT -> t_lit t = [46%N] -> ident_lexical i = true ->
-  JE2 o -> JE2 (EMember t o (EIdent i) false).
+  obj_ok o = true -> JE2 o -> JE2 (EMember t o (EIdent i) false).
 Proof.
-  intros Ty Li Hl3 (co & Oo & Jo).
+  intros Ty Li Hl3 Hob (co & Oo & Jo).
   unfold ident_lexical in Hl3. apply andb_true_iff in Hl3 as [Hi H3]. apply andb_true_iff in Hi as [H1 H2].
   apply Z.eqb_eq in H1. apply str_eqb_spec in H2.
   destruct (lex1_word _ _ [] H3 eq_refl ltac:(discriminate) ltac:(discriminate) eq_refl) as (HL & _).
   assert (Ni : id_value i <> []) by (intro E; rewrite E in HL; discriminate HL).
   exists co. split; [exact Oo|]. pose proof (ost_ostart _ Oo) as Oo'.
   cbn [write_expr first_type]. unfold write_ident.
+  (* the blank that keeps a decimal integer literal and the dot apart *)
+  set (bl := if is_decimal_int o then [32%N] else @nil N).
+  assert (Wb : forall b lv mp,
+    wrun (gs b lv mp) (if negb false && is_decimal_int o then [WRune 32%N] else []) = gs (b ++ bl) lv mp).
+  { intros. unfold bl. destruct (is_decimal_int o); cbn [negb andb]; wsimp; rewrite ?app_nil_r; reflexivity. }
   intros b lv mp.
   destruct (Jo b lv mp) as (sp & body & W & Sp & Hd & Lx).
-  exists sp, (body ++ 46%N :: id_value i). split.
-  { wsimp. rewrite W. wsimp. f_equal. rewrite <- !app_assoc. reflexivity. }
+  exists sp, (body ++ bl ++ 46%N :: id_value i). split.
+  { wsimp. rewrite W, Wb. wsimp. f_equal. rewrite <- !app_assoc. reflexivity. }
   split; [exact Sp|]. split; [rewrite (hd_app_ne _ _ (ostart_ne _ _ Oo' Hd)); exact Hd|].
   intros K HK l Hl.
-  destruct (Lx (46%N :: id_value i ++ K)) with (l := l) as (eO & tsO & l1 & L1 & R1 & MO & SO & FO).
-  { split; cbn [hd tl]; [reflexivity|]. intros _. rewrite (hd_app_ne _ _ Ni).
-    unfold isLetter in HL. unfold isDigit. lia. }
-  { rewrite Hl, <- !app_assoc. reflexivity. }
-  destruct (punct_step T_DOT [46%N] _ l1 type_text_dot ltac:(pfree) R1)
-    as (t1 & l2 & L2 & Ty1 & Li1 & _ & R2).
+  destruct (Lx (bl ++ 46%N :: id_value i ++ K)) with (l := l) as (eO & tsO & l1 & L1 & R1 & MO & SO & FO).
+  { unfold bl. destruct (is_decimal_int o) eqn:DI; [apply kont_cons; [reflexivity|discriminate]|].
+    split; cbn [app hd tl]; [reflexivity|]. intros _. unfold dot_ok. rewrite Hob, DI. reflexivity. }
+  { rewrite Hl, <- !app_assoc. cbn [app]. rewrite <- ?app_assoc. reflexivity. }
+  assert (PS : exists t1 l2, lexes l1 [t1] l2 /\ t_type t1 = T_DOT /\ t_lit t1 = [46%N] /\
+                             l_rest l2 = id_value i ++ K).
+  { unfold bl in R1. destruct (is_decimal_int o).
+    - destruct (punct_step_sp T_DOT [46%N] _ l1 type_text_dot ltac:(pfree) R1)
+        as (t1 & l2 & L2 & Ty1 & Li1 & _ & R2). eauto 7.
+    - destruct (punct_step T_DOT [46%N] _ l1 type_text_dot ltac:(pfree) R1)
+        as (t1 & l2 & L2 & Ty1 & Li1 & _ & R2). eauto 7. }
+  destruct PS as (t1 & l2 & L2 & Ty1 & Li1 & R2).
   destruct HK as [HK1 _].
   destruct (lex1_word _ _ K H3 eq_refl ltac:(discriminate) ltac:(discriminate) HK1) as (_ & LW & _).
   destruct (lex1_lexes _ _ _ _ LW Ni ltac:(discriminate) l2 R2) as (t2 & l3 & L3 & Ty2 & Li2 & _ & R3).
@@ -535,7 +549,7 @@ Proof.
   - cbn [fst snd] in *.
     destruct (Jk b lv mp) as (sp & body & W & Sp & Hd & Lx).
     destruct (Jv ((b ++ sp ++ body) ++ [58%N]) lv mp) as (sp2 & body2 & W2 & Sp2 & Hd2 & Lx2).
-    assert (ONE : forall K, kont K -> forall l, l_rest l = sp ++ body ++ 58%N :: sp2 ++ body2 ++ K ->
+    assert (ONE : forall K, kont ENil K -> forall l, l_rest l = sp ++ body ++ 58%N :: sp2 ++ body2 ++ K ->
               exists k' v' ts l', lexes l ts l' /\ l_rest l' = K /\ key_ok k' = true /\
                 (forall R, exists R1, m_expr k' (ts ++ R) = Some R1 /\
                    exists tc R2, eat T_COLON R1 = Some (tc, R2) /\ m_expr v' R2 = Some R) /\
@@ -544,7 +558,7 @@ Proof.
       destruct (Lx (58%N :: sp2 ++ body2 ++ K) ltac:(apply kont_cons; [reflexivity|discriminate]) l Hl)
         as (k' & tsk & l1 & L1 & R1 & Mk & Sk & _).
       destruct (colon_step _ l1 R1) as (tc & l2 & L2 & Tc & R2).
-      destruct (Lx2 K HK l2 R2) as (v' & tsv & l3 & L3 & R3 & Mv & Sv & _).
+      destruct (Lx2 K (kont_sub _ _ _ HK eq_refl) l2 R2) as (v' & tsv & l3 & L3 & R3 & Mv & Sv & _).
       exists k', v', (tsk ++ [tc] ++ tsv), l3.
       split; [eapply lexes_app; [exact L1|eapply lexes_app; eassumption]|]. split; [exact R3|].
       split; [rewrite (key_ok_shape _ _ Sk); exact Kk|]. split; [|split; assumption].
@@ -713,7 +727,7 @@ Definition let_ops (t : token) (name : ident) (v : expr) : list wop :=
 Definition JLet (t : token) (name : ident) (v : expr) : Prop :=
   forall b lv mp, exists body,
     wrun (gs b lv mp) (let_ops t name v) = gs (b ++ body) lv mp /\ hd 0%N body = 108%N /\
-    forall K, kont K -> forall l, l_rest l = body ++ K ->
+    forall K, kont ENil K -> forall l, l_rest l = body ++ K ->
       exists t1 n' v' ts l', lexes l (t1 :: id_tok n' :: ts) l' /\ l_rest l' = K /\
         t_type t1 = T_LET /\ norm_tok t1 = norm_tok t /\
         (forall R, m_ident n' (id_tok n' :: R) = Some R) /\ tmap_ident norm_tok n' = tmap_ident norm_tok name /\
@@ -757,7 +771,7 @@ Proof.
       as (t2 & l2 & L2 & Ty2 & Li2 & R2 & M2 & S2).
     destruct (punct_step T_ASSIGN [61%N] _ l2 type_text_assign (pbnd_operand _ _ _ _ K _ Sp Hd Ov') R2)
       as (t3 & l3 & L3 & Ty3 & _ & _ & R3).
-    destruct (Lx K HK l3 R3) as (v' & tsv & l4 & L4 & R4 & Mv & Sv & _).
+    destruct (Lx K (kont_sub _ _ _ HK eq_refl) l3 R3) as (v' & tsv & l4 & L4 & R4 & Mv & Sv & _).
     exists t1, (mkident t2 (id_value name)), v', (t3 :: tsv), l4. cbn [id_tok].
     split; [exact (lexes_app _ _ _ _ _ L1 (lexes_app _ _ _ _ _ L2 (lexes_app _ _ _ _ _ L3 L4)))|].
     split; [exact R4|]. split; [exact Ty1|].
@@ -844,7 +858,7 @@ Proof.
     as (t & l' & L & Ty & _ & _ & R). eauto.
 Qed.
 
-Lemma kont_semi X : kont (59%N :: X).
+Lemma kont_semi {g} X : kont g (59%N :: X).
 Proof. apply kont_cons; [reflexivity|discriminate]. Qed.
 
 Lemma m_end_semi asi nx t R : t_type t = T_SEMICOLON -> m_end asi nx (t :: R) = Some R.
@@ -1266,7 +1280,7 @@ Definition opt_ops (e : expr) : list wop := if negb (is_enil e) then write_expr 
 Definition JOpt (e : expr) : Prop :=
   forall b lv mp, exists txt,
     wrun (gs b lv mp) (opt_ops e) = gs (b ++ txt) lv mp /\
-    forall K, kont K -> forall l, l_rest l = txt ++ K ->
+    forall K, kont ENil K -> forall l, l_rest l = txt ++ K ->
       exists e' ts l', lexes l ts l' /\ l_rest l' = K /\
         (forall R, (if is_enil e' then Some (ts ++ R) else m_expr e' (ts ++ R)) = Some R) /\
         shape_expr e' = shape_expr e.
@@ -1279,12 +1293,12 @@ Proof.
   - destruct (J eq_refl) as (c & Oc & Je). destruct (Je b lv mp) as (sp & body & W & _ & _ & Lx).
     exists (sp ++ body). split; [cbn [negb]; rewrite app_nil_r; exact W|].
     intros K HK l Hl. rewrite <- app_assoc in Hl.
-    destruct (Lx K HK l Hl) as (e' & ts & l' & L & R & M & S & _).
+    destruct (Lx K (kont_sub _ _ _ HK eq_refl) l Hl) as (e' & ts & l' & L & R & M & S & _).
     exists e', ts, l'. split; [exact L|]. split; [exact R|]. split; [|exact S].
     intro R0. rewrite (is_enil_shape _ _ S), Ee. apply M.
 Qed.
 
-Lemma kont_rparen X : kont (41%N :: X).
+Lemma kont_rparen {g} X : kont g (41%N :: X).
 Proof. apply kont_cons; [reflexivity|discriminate]. Qed.
 
 Lemma J_sfor t i c u body : t_type t = T_FOR -> t_lit t = kw_for ->
@@ -1625,7 +1639,7 @@ Section Step.
       cbn [wfx wf_expr] in Hw.
       destruct (m_expr e1 ts) as [r1|] eqn:E1; [|discriminate H].
       pose proof (m_expr_TL _ _ _ E1 F) as F1.
-      apply andb_true_iff in Hw as [Hw W2]. apply andb_true_iff in Hw as [_ W1].
+      apply andb_true_iff in Hw as [Hw W2]. apply andb_true_iff in Hw as [Wlv W1].
       pose proof (IHe_wf e1 ltac:(lia) _ _ E1 W1 F) as Jo.
       destruct computed.
       + destruct (t_type t =? T_LBRACKET) eqn:C1; cbn [negb] in H; [|discriminate H]. apply Z.eqb_eq in C1.
@@ -1639,7 +1653,8 @@ Section Step.
         destruct (eat_tok_TL _ _ _ E2 F1) as [Tt F2].
         destruct e2; try discriminate H.
         destruct (m_ident_TL _ _ _ H F2) as [Hi _].
-        apply J2_member_dot; [exact C1|exact (TL_text _ _ Tt ltac:(rewrite C1; reflexivity))|exact Hi|exact Jo].
+        apply J2_member_dot; [exact C1|exact (TL_text _ _ Tt ltac:(rewrite C1; reflexivity))|exact Hi| |exact Jo].
+        apply obj_ok_level. exact Wlv.
     - (* EAssign *)
       cbn [wfx wf_expr] in Hw.
       destruct (t_type t =? T_ASSIGN) eqn:C1; cbn [negb] in H; [|discriminate H]. apply Z.eqb_eq in C1.
@@ -2287,7 +2302,7 @@ Lemma read_number_unfold l : read_number l =
   else
     let '(ip, l1) := lx_read_while isDigit l in
     let '(fp, ty1, l2) :=
-      if ch 46 l1 && isDigit (peek l1) then
+      if ch 46 l1 then
         let ldot := read_char l1 in
         let '(fd, l2) := lx_read_while isDigit ldot in
         (46%N :: fd, T_FLOAT, l2)
@@ -2326,26 +2341,18 @@ Proof.
   clear B1 B2 B3.
   (* decimal *)
   destruct (lx_read_while isDigit lb) as [ip lb1] eqn:W1.
-  destruct (ch 46 lb1 && isDigit (peek lb1)) eqn:Fc.
+  destruct (ch 46 lb1) eqn:Fc.
   - destruct (lx_read_while isDigit (read_char lb1)) as [fd lb2] eqn:W2.
     cbv zeta in H. rewrite W2 in H.
     destruct (exp_part_prefix _ _ _ _ _ _ _ H) as (q & Hq).
     destruct (lx_read_while_rst _ _ _ _ _ _ E W1
                 ltac:(rewrite Hl, Hq, app_length; lia)) as (la1 & W1a & E1 & R1).
-    rewrite W1a. rewrite Hl, Hq in R1. apply app_inv_head in R1.
-    assert (C46 : cur lb1 = 46%N /\ isDigit (peek lb1) = true) by (unfold ch in Fc; lia).
-    destruct C46 as [C46 PD].
-    assert (Nfd : exists d fd', fd = d :: fd').
-    { assert (Hp : peek lb1 <> 0%N) by (unfold isDigit in PD; lia).
-      destruct (peek_nz _ Hp) as [r Hr]. destruct (read_char_cons _ _ _ Hr) as [_ Rc].
-      pose proof (lx_read_while_nonempty _ _ _ _ _ _ W2 Rc PD) as Ne.
-      destruct fd as [|d fd']; [congruence|eauto]. }
-    destruct Nfd as (d & fd' & ->). cbn [app] in R1.
+    rewrite W1a. rewrite Hl, Hq in R1. apply app_inv_head in R1. cbn [app] in R1.
     assert (N1 : l_rest la1 <> []) by (rewrite <- R1; discriminate).
-    assert (Fa : ch 46 la1 && isDigit (peek la1) = true).
-    { unfold ch in *. rewrite <- (ext_cur _ _ _ E1 N1), <- (ext_peek _ _ _ _ _ _ E1 (eq_sym R1)). exact Fc. }
+    assert (Fa : ch 46 la1 = true).
+    { unfold ch in *. rewrite <- (ext_cur _ _ _ E1 N1). exact Fc. }
     rewrite Fa. destruct (ext_read_char _ _ _ E1 N1) as [Ed _].
-    assert (Rd : l_rest (read_char la1) = (d :: fd') ++ q) by (rewrite read_char_rest, <- R1; reflexivity).
+    assert (Rd : l_rest (read_char la1) = fd ++ q) by (rewrite read_char_rest, <- R1; reflexivity).
     destruct (lx_read_while_rst _ _ _ _ _ _ Ed W2 ltac:(rewrite Rd, app_length; lia)) as (la2 & W2a & E2 & R2).
     cbv zeta. rewrite W2a. rewrite Rd in R2. apply app_inv_head in R2.
     apply (read_exp_rst X _ _ _ _ _ _ _ _ E2 H). rewrite <- R2. exact Hq.
@@ -2353,11 +2360,10 @@ Proof.
     destruct (lx_read_while_rst _ _ _ _ _ _ E W1
                 ltac:(rewrite Hl, Hq, app_length; lia)) as (la1 & W1a & E1 & R1).
     rewrite W1a. rewrite Hl, Hq in R1. apply app_inv_head in R1.
-    assert (Fa : ch 46 la1 && isDigit (peek la1) = false).
-    { unfold ch in *. destruct (l_rest la1) as [|c [|d r]] eqn:Q1.
+    assert (Fa : ch 46 la1 = false).
+    { unfold ch in *. destruct (l_rest la1) as [|c r] eqn:Q1.
       - rewrite (cur_nil _ Q1). reflexivity.
-      - unfold peek. rewrite Q1. apply andb_false_r.
-      - rewrite <- (ext_cur _ _ _ E1 ltac:(rewrite Q1; discriminate)), <- (ext_peek _ _ _ _ _ _ E1 Q1). exact Fc. }
+      - rewrite <- (ext_cur _ _ _ E1 ltac:(rewrite Q1; discriminate)). exact Fc. }
     rewrite Fa.
     apply (read_exp_rst X _ _ _ _ _ _ _ _ E1 H). rewrite <- R1. exact Hq.
 Qed.
